@@ -1,6 +1,7 @@
 import Interceptor.Driver.Util
 import Interceptor.Model.RtpBuffer
 import Interceptor.Spec.RtpBuffer
+import Interceptor.Model.StreamFilter
 namespace Interceptor.Driver.Responder
 open Interceptor.Driver Interceptor.RtpBuffer
 
@@ -206,7 +207,12 @@ def respStep (s : Option Resp) (ts : List String) : Option Resp × List String :
       | _, _ => (s, ["bad-op"])
     | "bind" :: rest, some r =>
       let fs := fields rest
-      match getBounded fs "ssrc" 4294967296, getBounded fs "rssrc" 4294967296, getBounded fs "rpt" 256, getBool fs "fb" with
+      -- the stream's RTCPFeedback: `fb=0|1` (the two fixed lists of the first harness) or `fbl=<code>`, any list
+      -- over the alphabet of Model/StreamFilter.lean; the guard of `bind` is `streamSupportNack` of that list
+      let fb : Option Bool := match lookup fs "fbl" with
+        | some c => c.toNat?.bind Interceptor.StreamFilter.boundByCode
+        | none => getBool fs "fb"
+      match getBounded fs "ssrc" 4294967296, getBounded fs "rssrc" 4294967296, getBounded fs "rpt" 256, fb with
       | some ssrc, some rs, some rp, some fb => (some (r.bind ssrc rs rp fb), [])
       | _, _, _, _ => (s, ["bad-op"])
     | "write" :: rest, some r =>
